@@ -142,6 +142,19 @@ var knownRaces = []knownRace{
 
 func checkC11(cs *c11Case, o *pt.Obs) error {
 	evs := cs.DS.Events
+	// a queryable copy of the event id: half of the searches use the filter `vk>-1` (true for every event),
+	// which takes the micro-index path of unrotated segments instead of the match-all shortcut
+	for _, e := range evs {
+		has := false
+		for _, f := range e.Doc.Obj {
+			if f.Name == "vk" {
+				has = true
+			}
+		}
+		if !has {
+			e.Doc.Obj = append(e.Doc.Obj, model.Field{Name: "vk", Node: model.LeafNode(model.Int(e.Vid))})
+		}
+	}
 	lo, hi := lq.TsBounds(evs)
 	prog := programme{Flushers: cs.Flushers, Rotators: cs.Rotators, Searchers: cs.Searchers, FlushN: cs.FlushN, RotateN: cs.RotateN,
 		SearchN: cs.SearchN, Start: lo - 1, End: hi + 1, Total: len(evs), Indexes: idxNames[:cs.NIdx]}
@@ -232,19 +245,19 @@ func checkC11(cs *c11Case, o *pt.Obs) error {
 	overlapRot := false
 	for si, s := range res.Searches {
 		if s.Err != "" {
-			return fmt.Errorf("search %d on %s answered with an error during concurrent activity: %s", si, s.Index, s.Err)
+			return fmt.Errorf("search %d (%s) on %s answered with an error during concurrent activity: %s", si, s.Text, s.Index, s.Err)
 		}
 		seen := map[int64]bool{}
 		for _, v := range s.Got {
 			if seen[v] {
-				return fmt.Errorf("search %d on %s returned _vid=%d twice (rotation during search: %v)", si, s.Index, v, s.DuringRot)
+				return fmt.Errorf("search %d (%s) on %s returned _vid=%d twice (rotation during search: %v)", si, s.Text, s.Index, v, s.DuringRot)
 			}
 			seen[v] = true
 		}
 		for _, v := range s.AckedStart {
 			if !seen[v] {
-				return fmt.Errorf("search %d on %s misses _vid=%d whose flush had completed before the search began (returned %d, acknowledged %d, rotation during search: %v)",
-					si, s.Index, v, len(s.Got), len(s.AckedStart), s.DuringRot)
+				return fmt.Errorf("search %d (%s) on %s misses _vid=%d whose flush had completed before the search began (returned %d, acknowledged %d, rotation during search: %v)",
+					si, s.Text, s.Index, v, len(s.Got), len(s.AckedStart), s.DuringRot)
 			}
 		}
 		if s.DuringRot {
